@@ -1,8 +1,10 @@
 pub mod c01;
 pub mod c09;
+pub mod c11;
+pub mod c12;
 
 use crate::engine::Prop;
 
 pub fn registry() -> Vec<Box<dyn Prop>> {
-    vec![Box::new(c01::C01), Box::new(c09::C09)]
+    vec![Box::new(c01::C01), Box::new(c09::C09), Box::new(c11::C11), Box::new(c12::C12)]
 }
